@@ -202,7 +202,14 @@ func buildEnvDocs(parties []*envParty, ktName string, r *Rng) *envVDR {
 	v := &envVDR{docs: map[string]*did.Doc{}}
 	filler := envParties(ktName+"-filler", 2) // keys nobody uses, to pad the keyAgreement lists
 	for i, p := range parties {
+		// DIDs as they occur: with dots, colons and percent escapes in the method specific id (did:web)
 		docID := fmt.Sprintf("did:example:party%d", i)
+		switch r.N(3) {
+		case 1:
+			docID = fmt.Sprintf("did:web:party%d.example.com", i)
+		case 2:
+			docID = fmt.Sprintf("did:web:example.com%%3A8443:users:p.%d", i)
+		}
 		n := 1 + r.N(3)
 		pos := r.N(n)
 		doc := &did.Doc{ID: docID, Context: []string{"https://www.w3.org/ns/did/v1"}}
